@@ -9,6 +9,7 @@ Require Import Tac ListN Utf8 Width Attrs Cell Row Grid Screen Vte Perform Parse
 Require Import RowInv GridInv TextInv ScreenInv ParseSer CellWf WfInv WrapInv WrapInvScreen SgrSpec EmitSafe ObsSpec.
 Require Import AttrsInv EmitTokens CellInv Recv RowPaint Redraw Cursor C01Main C15Main CapInv Idem LastRow C01Examples Bytes.
 Require Import DiffRound DiffPaint DiffGrid DiffMain.
+Require Import Chunking PendTok.
 Open Scope N_scope.
 
 (* class U (one screen): scrollback offset 0 and no soft-wrapped visible row *)
@@ -93,26 +94,27 @@ Qed.
 Lemma diff_step_bytes_W P S r :
   reachable P -> reachable S -> in_W P S ->
   grows (cur S) = grows (cur P) -> gcols (cur S) = gcols (cur P) ->
-  ground (vt r) -> shows P (scr r) (live (cur P)) -> same_modes P (scr r) ->
+  pend r = [] -> ground (vt r) -> shows P (scr r) (live (cur P)) -> same_modes P (scr r) ->
   exists ts r', state_diff_t S P = Ok ts /\ process r (ser_all ts) = Ok r' /\
     log r' = log r /\ ground (vt r') /\ resizing r' = resizing r /\
-    shows S (scr r') (live (cur S)) /\ same_modes S (scr r') /\ obs (scr r') = obs S.
+    shows S (scr r') (live (cur S)) /\ same_modes S (scr r') /\ obs (scr r') = obs S /\ pend r' = [].
 Proof.
-  intros RP RS (OffP & OffS & HW) Er Ec Gr Sh Sm.
+  intros RP RS (OffP & OffS & HW) Er Ec Hpd Gr Sh Sm.
   pose proof (reachable_source P RP OffP) as HP. pose proof (reachable_source S RS OffS) as HS.
   destruct (reachable_tokens_ok S P 0 0 RS RP) as (_ & _ & _ & _ & (ts & Ets & Tok & _) & _).
   destruct (state_diff_obs_W S P (scr r) ts HS HP HW OffS Er Ec Sh Sm Ets) as (R' & P' & C' & Eo & Sh' & Sm').
-  destruct (process_tokens r ts R' Gr Tok P') as (r' & Ep & <- & El & Gq & Rz).
-  exists ts, r'. auto 10.
+  destruct (process_tokens r ts R' Hpd Gr Tok P') as (r' & Ep & <- & El & Gq & Rz).
+  pose proof (process_ser_all_pend r ts r' Hpd Tok Ep) as Hpd'.
+  exists ts, r'. auto 12.
 Qed.
 
 Lemma diff_step_bytes P S r :
   reachable P -> reachable S -> in_U P -> in_U S ->
   grows (cur S) = grows (cur P) -> gcols (cur S) = gcols (cur P) ->
-  ground (vt r) -> shows P (scr r) (live (cur P)) -> same_modes P (scr r) ->
+  pend r = [] -> ground (vt r) -> shows P (scr r) (live (cur P)) -> same_modes P (scr r) ->
   exists ts r', state_diff_t S P = Ok ts /\ process r (ser_all ts) = Ok r' /\
     log r' = log r /\ ground (vt r') /\ resizing r' = resizing r /\
-    shows S (scr r') (live (cur S)) /\ same_modes S (scr r') /\ obs (scr r') = obs S.
+    shows S (scr r') (live (cur S)) /\ same_modes S (scr r') /\ obs (scr r') = obs S /\ pend r' = [].
 Proof. intros RP RS UP US. apply diff_step_bytes_W; auto. now apply in_U_W. Qed.
 
 (* the reproduction of P *)
@@ -129,7 +131,7 @@ Proof.
   destruct (state_formatted_ok P I1) as (ts & Ets).
   pose proof (state_formatted_tok P ts I1 I2 I3 Ets) as Tok.
   destruct (C01_shows P (scr r0) ts HP (reachable_lastu P RP) CR R1 R2 M1 M2 Ets) as (R' & P' & Sh & Sm).
-  destruct (process_tokens r0 ts R' G0 Tok P') as (r & Ep & <- & El & Gq & _).
+  destruct (process_tokens r0 ts R' (parser_new_pend _ _ _ _ _ En) G0 Tok P') as (r & Ep & <- & El & Gq & _).
   exists r. unfold reproduce. rewrite En. cbn [bind]. rewrite Ets. cbn [bind].
   split; [exact Ep|]. split; [congruence|]. auto.
 Qed.
@@ -144,8 +146,8 @@ Theorem diff_round_W_strong P S :
 Proof.
   intros RP RS HW Er Ec.
   destruct (reproduce_shows P RP (proj1 HW)) as (r & Erp & Lr & Gr & Sh & Sm).
-  destruct (diff_step_bytes_W P S r RP RS HW (eq_sym Er) (eq_sym Ec) Gr Sh Sm)
-    as (ts & r' & Ets & Ep & El & Gq & _ & Sh' & _ & Eo).
+  destruct (diff_step_bytes_W P S r RP RS HW (eq_sym Er) (eq_sym Ec) (reproduce_pend P r RP Erp) Gr Sh Sm)
+    as (ts & r' & Ets & Ep & El & Gq & _ & Sh' & _ & Eo & _).
   exists r'. unfold diff_round. rewrite Erp. cbn [bind]. rewrite Ets. cbn [bind].
   split; [exact Ep|]. split; [exact Eo|]. split; [congruence|]. split; [exact Gq|apply Sh'].
 Qed.
@@ -194,20 +196,20 @@ Fixpoint chain_W (rows cols : N) (prev : screen) (snaps : list screen) : Prop :=
 Theorem diff_chain_W rows cols : forall snaps prev r,
   reachable prev -> sb_off (cur prev) = 0 -> grows (cur prev) = rows -> gcols (cur prev) = cols ->
   chain_W rows cols prev snaps ->
-  ground (vt r) -> shows prev (scr r) (live (cur prev)) -> same_modes prev (scr r) ->
+  pend r = [] -> ground (vt r) -> shows prev (scr r) (live (cur prev)) -> same_modes prev (scr r) ->
   exists r', diff_chain r prev snaps = Ok r' /\ log r' = log r /\ ground (vt r') /\
              shows (last_snap prev snaps) (scr r') (live (cur (last_snap prev snaps))) /\
              same_modes (last_snap prev snaps) (scr r') /\
              obs (scr r') = obs (last_snap prev snaps).
 Proof.
-  induction snaps as [|s rest IH]; intros prev r RP Off Pr Pc Hs Gr Sh Sm.
+  induction snaps as [|s rest IH]; intros prev r RP Off Pr Pc Hs Hpd Gr Sh Sm.
   - exists r. cbn [diff_chain last_snap]. split; [reflexivity|]. split; [reflexivity|]. split; [exact Gr|].
     split; [exact Sh|]. split; [exact Sm|]. now apply shows_obs.
   - destruct Hs as (RS & Sr & Sc & HW & Hrest).
-    destruct (diff_step_bytes_W prev s r RP RS HW ltac:(congruence) ltac:(congruence) Gr Sh Sm)
-      as (ts & r1 & Ets & Ep & El & G1 & _ & Sh1 & Sm1 & _).
+    destruct (diff_step_bytes_W prev s r RP RS HW ltac:(congruence) ltac:(congruence) Hpd Gr Sh Sm)
+      as (ts & r1 & Ets & Ep & El & G1 & _ & Sh1 & Sm1 & _ & Pd1).
     destruct HW as (_ & OffS & _).
-    destruct (IH s r1 RS OffS Sr Sc Hrest G1 Sh1 Sm1) as (r' & E' & L' & G' & Sh' & Sm' & Eo').
+    destruct (IH s r1 RS OffS Sr Sc Hrest Pd1 G1 Sh1 Sm1) as (r' & E' & L' & G' & Sh' & Sm' & Eo').
     exists r'. cbn [diff_chain last_snap]. rewrite Ets. cbn [bind]. rewrite Ep. cbn [bind].
     split; [exact E'|]. split; [congruence|]. auto.
 Qed.
@@ -221,7 +223,7 @@ Theorem diff_chain_round_W rows cols S0 snaps :
 Proof.
   intros R0 Off Rr Rc Hs.
   destruct (reproduce_shows S0 R0 Off) as (r & Erp & Lr & Gr & Sh & Sm).
-  destruct (diff_chain_W rows cols snaps S0 r R0 Off Rr Rc Hs Gr Sh Sm) as (r' & E' & L' & G' & _ & _ & Eo).
+  destruct (diff_chain_W rows cols snaps S0 r R0 Off Rr Rc Hs (reproduce_pend S0 r R0 Erp) Gr Sh Sm) as (r' & E' & L' & G' & _ & _ & Eo).
   exists r, r'. split; [exact Erp|]. split; [exact E'|]. split; [exact Eo|]. split; [congruence|exact G'].
 Qed.
 
@@ -239,7 +241,7 @@ Qed.
 
 Theorem diff_chain_U rows cols : forall snaps prev r,
   snap_ok rows cols prev -> Forall (snap_ok rows cols) snaps ->
-  ground (vt r) -> shows prev (scr r) (live (cur prev)) -> same_modes prev (scr r) ->
+  pend r = [] -> ground (vt r) -> shows prev (scr r) (live (cur prev)) -> same_modes prev (scr r) ->
   exists r', diff_chain r prev snaps = Ok r' /\ log r' = log r /\ ground (vt r') /\
              shows (last_snap prev snaps) (scr r') (live (cur (last_snap prev snaps))) /\
              same_modes (last_snap prev snaps) (scr r') /\
